@@ -201,6 +201,10 @@ func checkC20(p *core.Program, r *core.Report) {
 	r.Rule("R2", "every asset-reference field of an action struct is visible to the reflection walker (exported, json-named) or the type declares its dependencies explicitly")
 	r.Rule("R4", "extractExitsFromWaits includes every exit of every node whose router has a wait (no other filter); node enumerators cover all actions and the router")
 	r.Rule("R5", "every action struct field whose value reaches Run.EvaluateTemplate* carries engine:\"evaluated\" (else template-borne dependencies are invisible to inspection)")
+	r.Rule("R9", "the exits a resumed session can leave a wait by are exits of the waiting node: a category's exit is validated against the node's exits at load (imported from C01/R10), which is what makes `every exit of every waiting node` the complete list")
+	importObligations(p, r, "C01", map[string]bool{"R10": true}, "R9", "a wait can be left by an exit that inspection does not list")
+	r.Rule("R10", "what validation admits, inspection recognises: the spelling of a case's test type that SwitchRouter.Validate accepts is not laxer than the one Case.Dependencies / inspection compares — if any consumer of Case.Type compares it exactly, Validate looks it up exactly too (a type admitted only after lower-casing runs as has_group but its group is not listed as a dependency)")
+	c20R10(p, r)
 	r.Rule("R8", "the extraction chain drops nothing: from the tagged fields to the recorded references — templateValues' field callback, Translations, extractTemplates, the callbacks of flow.extract and its recordAssetRef — every hand-over (a call of the include callback, of the next stage, or the append that records) is decided only by loop bounds, type-switch arms, nil tests, the EngineField flags and Reference.Variable(); no hand-over is followed by leaving the enclosing loop early")
 	c20R8(p, r)
 	r.Rule("R7", "routers enumerate what they use: every receiver field of a router type whose value reaches Run.EvaluateTemplate* in its methods is passed on by its EnumerateTemplates, and every field whose type can hold a DependencyContainer or an asset reference by its EnumerateDependencies")
@@ -1328,4 +1332,73 @@ func c20R8(p *core.Program, r *core.Report) {
 		}
 	}
 	r.Require("extraction_handovers", n, 8)
+}
+
+// ---------------------------------------------------------------------------------------------- R10
+
+func c20R10(p *core.Program, r *core.Report) {
+	typeField := p.FieldOf("flows/routers", "Case", "Type")
+	validate := p.Method("flows/routers", "SwitchRouter", "Validate")
+	if typeField == nil || validate == nil {
+		r.Errorf("routers.Case.Type / SwitchRouter.Validate not found")
+		return
+	}
+	// per function: how the type is used where it decides something (a comparison or a table lookup)
+	type use struct {
+		fn      *ssa.Function
+		lowered bool
+		pos     token.Pos
+	}
+	var uses []use
+	for _, fn := range p.ModuleFunctions() {
+		if p.IsTestFile(fn.Pos()) || core.RelPkg(core.FuncPkgPath(fn)) != "flows/routers" {
+			continue
+		}
+		core.EachInstr(fn, false, func(_ *ssa.Function, in ssa.Instruction) {
+			var operands []ssa.Value
+			switch x := in.(type) {
+			case *ssa.BinOp:
+				if x.Op == token.EQL || x.Op == token.NEQ {
+					operands = []ssa.Value{x.X, x.Y}
+				}
+			case *ssa.Lookup:
+				operands = []ssa.Value{x.Index}
+			}
+			for _, op := range operands {
+				fromType, lowered := false, false
+				for v := range core.BackSlice(op, func(*ssa.Call) bool { return true }) {
+					switch y := v.(type) {
+					case *ssa.FieldAddr:
+						if core.FieldAddrVar(y) == typeField {
+							fromType = true
+						}
+					case *ssa.Call:
+						if o := core.CalleeObj(&y.Call); o != nil && core.ObjName(o) == "strings.ToLower" {
+							lowered = true
+						}
+					}
+				}
+				if fromType {
+					uses = append(uses, use{rootFn(fn), lowered, in.Pos()})
+				}
+			}
+		})
+	}
+	exactConsumer := ""
+	validateLowered := false
+	nV := 0
+	for _, u := range uses {
+		if u.fn == validate {
+			nV++
+			if u.lowered {
+				validateLowered = true
+			}
+		} else if !u.lowered {
+			exactConsumer = core.FuncName(u.fn) + " at " + p.Pos(u.pos)
+		}
+	}
+	r.Check(!(validateLowered && exactConsumer != ""), "R10", "SwitchRouter.Validate/type-spelling-not-laxer-than-consumers", p.Pos(validate.Pos()), fmt.Sprintf("%d decisions on Case.Type, Validate exact", len(uses)),
+		"SwitchRouter.Validate accepts a case type after lower-casing it, but "+exactConsumer+" compares the type exactly: a case spelled HAS_GROUP loads and routes by group membership while its group is missing from the inspected dependencies")
+	r.Require("case_type_decisions", len(uses), 3)
+	r.Require("case_type_decisions_in_validate", nV, 1)
 }
